@@ -51,7 +51,7 @@ mod imp {
     impl Val { pub fn show(&self) -> String { match self { Val::Int(n) => n.to_string(), Val::Str(s) => s.clone() } } }
 
     #[derive(Clone, Debug, PartialEq)]
-    pub enum FnKind { AddK(i64), ReadG(String), BumpG(String), Boom }
+    pub enum FnKind { AddK(i64), ReadG(String), BumpG(String), Boom, CallF(String, i64) }
     #[derive(Clone, Debug, PartialEq)]
     pub struct FnDef { pub tag: String, pub kind: FnKind }
 
@@ -85,6 +85,7 @@ mod imp {
                 FnKind::ReadG(g) => format!("fn {}(x) {{ println(\"{}\"); return {} + x }}", name, def.tag, g),
                 FnKind::BumpG(g) => format!("fn {}(x) {{ println(\"{}\"); {} = {} + x; return {} }}", name, def.tag, g, g, g),
                 FnKind::Boom => format!("fn {}(x) {{ println(\"{}\"); return x / zero }}", name, def.tag),
+                FnKind::CallF(t, k) => format!("fn {}(x) {{ println(\"{}\"); return {}(x) + {} }}", name, def.tag, t, k),
             },
             Stmt::PrintVar { name } => format!("println({})", name),
             Stmt::PrintCall { f, arg } => format!("println({}({}))", f, arg),
@@ -110,6 +111,7 @@ mod imp {
                     Some((Val::Int(n), m)) => { self.vars.insert(g, (Val::Int(n + arg), m)); Ok(n + arg) }
                     _ => Err(()) },
                 FnKind::Boom => Err(()),
+                FnKind::CallF(t, k) => self.call(&t, arg, out).map(|v| v + k),
             }
         }
         pub fn input(&mut self, stmts: &[Stmt], expect: Expect) -> OStep {
@@ -154,8 +156,12 @@ mod imp {
         }
         fn all_vars(&self) -> Vec<String> { let mut v: Vec<String> = self.o.vars.keys().filter(|k| k.as_str() != "zero" && !k.starts_with("junk")).cloned().collect(); v.sort(); v }
         fn fns(&self, safe: bool) -> Vec<String> {
-            let mut v: Vec<String> = self.o.fns.iter().filter(|(_, d)| !safe || d.kind != FnKind::Boom).map(|(k, _)| k.clone()).collect();
+            let mut v: Vec<String> = self.o.fns.iter().filter(|(_, d)| !safe || !self.fails(d)).map(|(k, _)| k.clone()).collect();
             v.sort(); v
+        }
+        /// does a call of this function fail (division by zero), directly or in the function it calls?
+        pub fn fails(&self, d: &FnDef) -> bool {
+            match &d.kind { FnKind::Boom => true, FnKind::CallF(t, _) => self.o.fns.get(t).map(|x| self.fails(x)).unwrap_or(true), _ => false }
         }
         fn pick(&mut self, v: &[String]) -> String { v[self.rng.below(v.len() as u64) as usize].clone() }
         fn good_stmt(&mut self, defined_here: &mut HashSet<String>, assigned_here: &mut HashSet<String>) -> Option<Stmt> {
@@ -173,7 +179,17 @@ mod imp {
                 assigned_here.insert(name.clone());
                 if self.rng.chance(1, 2) { Some(Stmt::SetLit { name, val: self.rng.range_i64(-50, 50) }) } else { Some(Stmt::AddTo { name, k: self.rng.range_i64(1, 9) }) }
             } else if r < 44 {
-                let name = if !fs.is_empty() && self.rng.chance(1, 3) { self.pick(&fs) } else { self.fresh("f") };
+                // a function that calls another global function (names c<N>; never redefined, never a callee: no cycles)
+                let callees: Vec<String> = { let mut v: Vec<String> = self.o.fns.keys().filter(|n| n.starts_with('f')).cloned().collect(); v.sort(); v };
+                if !callees.is_empty() && self.rng.chance(1, 4) {
+                    let name = self.fresh("c");
+                    defined_here.insert(name.clone());
+                    let tag = self.fresh("T");
+                    let t = self.pick(&callees);
+                    return Some(Stmt::Def { name, def: FnDef { tag, kind: FnKind::CallF(t, self.rng.range_i64(1, 9)) } });
+                }
+                let fnames: Vec<String> = fs.iter().filter(|n| n.starts_with('f')).cloned().collect();
+                let name = if !fnames.is_empty() && self.rng.chance(1, 3) { self.pick(&fnames) } else { self.fresh("f") };
                 if defined_here.contains(&name) { return None; }
                 defined_here.insert(name.clone());
                 let tag = self.fresh("T");
@@ -198,6 +214,8 @@ mod imp {
                 FnKind::ReadG(g) => matches!(vars.get(g), Some((Val::Int(_), true))),
                 FnKind::BumpG(g) => matches!(vars.get(g), Some((Val::Int(_), true))),
                 _ => true });
+            let names: HashSet<String> = self.o.fns.keys().cloned().collect();
+            self.o.fns.retain(|_, d| match &d.kind { FnKind::CallF(t, _) => names.contains(t), _ => true });
         }
         pub fn step(&mut self, first: bool) -> Step {
             if first {
@@ -209,7 +227,7 @@ mod imp {
             let fs_all = self.fns(false); let fs = self.fns(true);
             if r < 14 && !fs_all.is_empty() {
                 // host call; a call into a failing function only when asked for (it leaves frames behind)
-                let booms: Vec<String> = fs_all.iter().filter(|f| self.o.fns[*f].kind == FnKind::Boom).cloned().collect();
+                let booms: Vec<String> = fs_all.iter().filter(|f| self.fails(&self.o.fns[*f])).cloned().collect();
                 let f = if !booms.is_empty() && self.rng.chance(1, 3) { self.pick(&booms) } else if !fs.is_empty() { self.pick(&fs) } else { return self.step(false) };
                 return Step::Host { f, arg: self.rng.range_i64(0, 9), cached: self.rng.chance(1, 3) };
             }
@@ -249,10 +267,10 @@ mod imp {
                 st.push(Stmt::PrintLit { text: self.fresh("p") });
                 if self.rng.chance(1, 2) { st.push(Stmt::Let { name: self.fresh("junk"), mutable: true, val: Val::Int(5) }); }
                 if self.rng.chance(1, 2) && !fs.is_empty() {
-                    let pure: Vec<String> = fs.iter().filter(|f| !matches!(self.o.fns[*f].kind, FnKind::BumpG(_))).cloned().collect();
+                    let pure: Vec<String> = fs.iter().filter(|f| matches!(self.o.fns[*f].kind, FnKind::AddK(_) | FnKind::ReadG(_))).cloned().collect();
                     if !pure.is_empty() { st.push(Stmt::PrintCall { f: self.pick(&pure), arg: 2 }); }
                 }
-                let booms: Vec<String> = fs_all.iter().filter(|f| self.o.fns[*f].kind == FnKind::Boom).cloned().collect();
+                let booms: Vec<String> = fs_all.iter().filter(|f| self.fails(&self.o.fns[*f])).cloned().collect();
                 if !booms.is_empty() && self.rng.chance(1, 2) { st.push(Stmt::PrintCall { f: self.pick(&booms), arg: 3 }); }
                 else { st.push(Stmt::Raw { text: "println(1 / zero)".into() }); }
                 st.push(Stmt::PrintLit { text: self.fresh("unreached") });
@@ -322,6 +340,32 @@ mod imp {
         if c == "ok" { "ok" } else if c == "compile-error" { "compile-error" } else if c.starts_with("runtime:") { "runtime-error" } else { "other" }
     }
 
+
+    /// model operations of a call of f(arg) whose result, plus `add`, is printed / returned;
+    /// host: Some(cached) for a call made by the host, None for a call from bytecode
+    pub fn emit_call(f: &str, arg: i64, add: i64, fns: &HashMap<String, FnDef>, fn_lay: &HashMap<String, Lay>, names: &mut Names,
+                     problems: &mut Vec<String>, host: Option<bool>) -> (Vec<String>, bool) {
+        let mut ops = Vec::new();
+        let (d, lf) = match (fns.get(f).cloned(), fn_lay.get(f).cloned()) {
+            (Some(d), Some(l)) => (d, l),
+            _ => { problems.push(format!("no layout known for {}", f)); return (ops, false); }
+        };
+        match host { Some(c) => ops.push(format!("OHostCall {} {}", coq_layout(&lf, names), c)), None => ops.push(format!("OCall {}", coq_layout(&lf, names))) }
+        let mut fidx = |n: &str, problems: &mut Vec<String>| -> usize { match lf.names.iter().position(|x| x == n) { Some(i) => i, None => { problems.push(format!("{} not in the layout of {}", n, f)); 9999 } } };
+        match &d.kind {
+            FnKind::AddK(k) => { ops.push("OReturn".into()); ops.push(format!("OPrintConst {}", zc(arg + k + add))); (ops, false) }
+            FnKind::ReadG(gv) => { ops.push(format!("OPrintIdx {} {}", fidx(gv, problems), zc(arg + add))); ops.push("OReturn".into()); (ops, false) }
+            FnKind::BumpG(gv) => { let i = fidx(gv, problems); ops.push(format!("OAddIdx {} {}", i, zc(arg))); ops.push(format!("OPrintIdx {} {}", i, zc(add))); ops.push("OReturn".into()); (ops, false) }
+            FnKind::Boom => { ops.push("OFail".into()); (ops, true) }
+            FnKind::CallF(t, k) => {
+                let (inner, failed) = emit_call(t, arg, add + k, fns, fn_lay, names, problems, None);
+                ops.extend(inner);
+                if !failed { ops.push("OReturn".into()); }
+                (ops, failed)
+            }
+        }
+    }
+
     pub struct CaseOut { pub query: String, pub observed: String, pub real_steps: String, pub oracle_steps: String, pub source: String,
                          pub problems: Vec<String>, pub kinds: String, pub stale_entry: bool }
 
@@ -377,19 +421,9 @@ mod imp {
                                     Stmt::PrintLit { .. } => {}
                                     Stmt::Raw { .. } => { ops.push("OFail".into()); failed = true; }
                                     Stmt::PrintCall { f, arg } => {
-                                        match (cur.fns.get(f).cloned(), fn_lay.get(f).cloned()) {
-                                            (Some(d), Some(lf)) => {
-                                                ops.push(format!("OCall {}", coq_layout(&lf, &mut names)));
-                                                let fidx = |n: &str, problems: &mut Vec<String>| -> usize { match idx_in(&lf, n) { Some(i) => i, None => { problems.push(format!("{} not in the layout of {}", n, f)); 9999 } } };
-                                                match &d.kind {
-                                                    FnKind::AddK(k) => { ops.push("OReturn".into()); ops.push(format!("OPrintConst {}", zc(arg + k))); }
-                                                    FnKind::ReadG(gv) => { ops.push(format!("OPrintIdx {} {}", fidx(gv, &mut problems), zc(*arg))); ops.push("OReturn".into()); }
-                                                    FnKind::BumpG(gv) => { let i = fidx(gv, &mut problems); ops.push(format!("OAddIdx {} {}", i, zc(*arg))); ops.push(format!("OPrintIdx {} 0", i)); ops.push("OReturn".into()); }
-                                                    FnKind::Boom => { ops.push("OFail".into()); failed = true; }
-                                                }
-                                            }
-                                            _ => problems.push(format!("no layout known for {}", f)),
-                                        }
+                                        let (o2, f2) = emit_call(f, *arg, 0, &cur.fns, &fn_lay, &mut names, &mut problems, None);
+                                        ops.extend(o2);
+                                        if f2 { failed = true; }
                                     }
                                 }
                                 cur.input(std::slice::from_ref(st), Expect::Ok);
@@ -401,7 +435,7 @@ mod imp {
                     }
                 }
                 Step::Host { f, arg, cached } => {
-                    *kinds.entry(if g.o.fns.get(f).map(|d| d.kind == FnKind::Boom).unwrap_or(false) { "host-call-failing" } else if g.o.fns.contains_key(f) { "host-call-ok" } else { "host-call-undefined" }).or_insert(0) += 1;
+                    *kinds.entry(if g.o.fns.get(f).map(|d| g.fails(d)).unwrap_or(false) { "host-call-failing" } else if g.o.fns.contains_key(f) { "host-call-ok" } else { "host-call-undefined" }).or_insert(0) += 1;
                     srcs.push(format!("@{} {} {}\n", if *cached { "cached" } else { "call" }, f, arg));
                     let def = g.o.fns.get(f).cloned();
                     // entry condition of a host call: an empty frame stack.  When it does not hold the step is still run and
@@ -409,15 +443,10 @@ mod imp {
                     stale_entry = vm.verif_frames_len() > 0;
                     r = host_call(&mut vm, f, *arg, *cached);
                     o = g.o.host(f, *arg);
-                    if let (Some(d), Some(lf)) = (def, fn_lay.get(f).cloned()) {
-                        ops.push(format!("OHostCall {} {}", coq_layout(&lf, &mut names), cached));
-                        let fidx = |n: &str, problems: &mut Vec<String>| -> usize { match lf.names.iter().position(|x| x == n) { Some(i) => i, None => { problems.push(format!("{} not in the layout of {}", n, f)); 9999 } } };
-                        match &d.kind {
-                            FnKind::AddK(k) => { ops.push("OReturn".into()); ops.push(format!("OPrintConst {}", zc(arg + k))); }
-                            FnKind::ReadG(gv) => { ops.push(format!("OPrintIdx {} {}", fidx(gv, &mut problems), zc(*arg))); ops.push("OReturn".into()); }
-                            FnKind::BumpG(gv) => { let i = fidx(gv, &mut problems); ops.push(format!("OAddIdx {} {}", i, zc(*arg))); ops.push(format!("OPrintIdx {} 0", i)); ops.push("OReturn".into()); }
-                            FnKind::Boom => ops.push("OFail".into()),
-                        }
+                    if def.is_some() {
+                        let fns_now = { let mut m = g.o.fns.clone(); if let Some(d) = def.clone() { m.insert(f.clone(), d); } m };
+                        let (o2, _f2) = emit_call(f, *arg, 0, &fns_now, &fn_lay, &mut names, &mut problems, Some(*cached));
+                        ops.extend(o2);
                     }
                 }
             }
